@@ -848,6 +848,7 @@ def main(tier, replay=None):
                     for form, got in zip(CONV_FORMS, t[1:]):
                         if got == "-":
                             continue
+                        dist["convert<%s>" % SRC_CXX[form]] = dist.get("convert<%s>" % SRC_CXX[form], 0) + 1
                         rg = CONV_RANGE[form]
                         if rg is not None and not (rg[0] <= want_lift <= rg[1]):
                             continue        # the lift does not fit the target type: outside the claim
@@ -874,7 +875,10 @@ def main(tier, replay=None):
                     if in_known_defect(ring, src, m, x) or model_describes_unrepaired_body(ring, src, m, x):
                         # the input lies in the domain of a defect listed as unrepaired, yet the implementation agrees with the oracle:
                         # the repair has reached /repo.  The model still describes the unrepaired body on this domain only: not compared.
-                        nrepaired += 1
+                        if ml[0] != "UB" and ml[0] == (t[1] if kind == "tab" else t[0]):
+                            ncorr += 1
+                        else:
+                            nrepaired += 1
                     elif ml[0] == "UB":
                         nub += 1
                     else:
@@ -976,5 +980,23 @@ def main(tier, replay=None):
     chk.cov["traces_validated_against_impl"] = ncorr
     chk.cov["model_leaves_defined_behaviour"] = nub
     chk.cov["inputs_in_a_listed_defect_domain_on_which_the_implementation_is_correct"] = nrepaired
-    chk.cov["distribution_by_ring_and_source"] = dist
+    chk.cov["distribution_by_ring_and_source"] = {k: v for k, v in dist.items() if "/" in k and not k.startswith(("rt-through/", "how/"))}
+    # every public call form of the operations the property names, with the number of cases that drove it
+    forms = {}
+    for k, v in dist.items():
+        if k.startswith("rt-through/"):
+            forms["init(e2, convert<%s>(t, e)) == e" % SRC_CXX[k.split("/")[1]]] = v
+        elif k.startswith("how/"):
+            forms["domain obtained by " + HOW_TEXT[k.split("/")[1]]] = v
+        elif k.startswith("convert<"):
+            forms["convert(%s&, e)" % k[8:-1]] = v
+        elif k == "predicates":
+            forms["isZero(e) / isOne(e) / isMOne(e) / areEqual(e, zero) / areEqual(e, init(0))"] = v
+        elif "/" in k:
+            src = k.split("/")[1]
+            nm = "zero, one, mOne, init(e), init(e, int64_t(-1))" if src == "-" else "init(e, const %s&)" % SRC_CXX[src]
+            forms[nm] = forms.get(nm, 0) + v
+    chk.cov["call_forms"] = forms
+    chk.cov["overload_condition_read_from_source"] = {"modular-integral.h floating init": _SRC_STATE.get("float_overload_condition", []),
+                                                      "every floating source takes the fmod overload (fix-15)": bool(_SRC_STATE.get("float_all"))}
     return chk.finish()
